@@ -21,6 +21,8 @@ CONSTANTS
     Owners,        \* set of owner ids (strings)
     Serials,       \* set of serial classes (strings)
     Bodies,        \* 1..n : distinct certificates (keys) available per (owner, serial)
+    ForeignBodies, \* the bodies that are NOT self-issued: subject = the owner, issuer name = another account
+    ForeignSerials,\* the serial classes for which such bodies exist (a bound of the model, not of the code)
     KeySeq,        \* all <<owner, serial>> pairs in the order the certificate store sorts them
     ZeroSerials,   \* serial classes whose big-endian byte encoding is empty (the number 0)
     Impl,          \* "intended" | "asfound". As found (known finding, root cause in the SDK's FilteredPaginate):
@@ -63,7 +65,9 @@ Ops(r) ==
 (* Create: mo = the message's Owner field (the account the message requires *)
 (* to sign), cn = the account named in the certificate (CommonName),        *)
 (* s, b = serial and body of the certificate.                               *)
-(*   ante: signer must be mo; ValidateBasic + keeper: cn must be mo;        *)
+(*   ante: signer must be mo; ValidateBasic + keeper: cn must be mo -- cn   *)
+(*   is the SUBJECT of the certificate, "the account named in it"; who the  *)
+(*   issuer name says (b \in ForeignBodies) plays no role;                  *)
 (*   keeper: (cn, s) must not be registered.                                *)
 (* Revoke: o, s = the id in the message; the message requires o to sign.    *)
 (*   keeper: must be registered and valid.                                  *)
@@ -183,7 +187,9 @@ Init == reg = InitReg /\ out = [k |-> "init"]
 
 MsgNext ==
     \/ \E signer \in Owners, mo \in Owners, cn \in Owners, s \in Serials, b \in Bodies :
-          /\ b = 1 \/ Registered(reg, cn, s)          \* bodies are interchangeable: the first one registered is body 1
+          /\ b \in ForeignBodies => s \in ForeignSerials
+          /\ b = 1 \/ b \in ForeignBodies \/ Registered(reg, cn, s)  \* self-issued bodies are interchangeable: the
+                                                                   \* first of them to be registered is body 1
           /\ signer = mo \/ cn = mo                   \* a foreign signature is tried on well-formed messages only
           /\ CreateOK(reg, signer, mo, cn, s) => Ops(reg) < MaxOps
           /\ Create(signer, mo, cn, s, b)
